@@ -5,11 +5,19 @@ Every property of properties.jsonl must be in exactly one of the two."""
 import json, sys
 base=json.load(open('/verif/MANIFEST.base.json'))
 claims=json.load(open('/verif/scripts/claims.json'))
+import subprocess
+explain=json.loads(subprocess.check_output(['/verif/bin/edscheck','-explain']))
+DEFAULT_NOTE="Trusted: go/types and go/ssa (golang.org/x/tools v0.29.0), the rule tables in /verif/checker (rules_%s.go), the controller-runtime client verbs do what they say. Anchors are resolved through the type-checked program; an anchor or construct the rule cannot classify is reported (fail closed). Only the shape of the code on every path is decided, never a run."
+DEFAULT_TECH="static analysis: repository-specific rules over the type-checked SSA program (must-fact dataflow, path/decision tables, value provenance, API-effect index)"
 ids=[json.loads(l)['id'] for l in open('/verif/properties.jsonl')]
 checks=[]; na=[]
 for pid in ids:
     c=claims['claimed'].get(pid)
-    if c:
+    if c is not None and pid not in explain: sys.exit(f"{pid} claimed but not registered in the checker")
+    if c is not None:
+        c.setdefault('text',"Decides structural necessary conditions of the property on every path of the anchored code, by static analysis of the source (no execution): "+explain[pid]+" A violation of any decided clause breaks the property for some input; the behaviour over histories/schedules/values named as not decided in the evidence is not claimed.")
+        c.setdefault('note',DEFAULT_NOTE % pid.lower())
+        c.setdefault('technique',DEFAULT_TECH)
         checks.append({
           "property_id":pid,
           "quick_cmd":f"./bin/edscheck -property {pid} -tier quick",
